@@ -1370,8 +1370,11 @@ static U32 gen_string(Rng &r, int width) {
         else if (k == 14)
             s.push_back(0x7f);
         else if (k <= 17) {
-            static const uint32_t cps[] = {0xE9, 0x20AC, 0x1F600, 0x10FFFF, 0x7FF, 0x800, 0xFFFF, 0x10000, 0xA0};
-            encode_cp(cps[r.below(9)], width, s);
+            // (the second row: units whose LOW BYTE is a unit the escaper / parser treats specially — quote, backslash,
+            // slash, control characters, space, NUL — for code that narrows a wide unit before classifying it)
+            static const uint32_t cps[] = {0xE9, 0x20AC, 0x1F600, 0x10FFFF, 0x7FF, 0x800, 0xFFFF, 0x10000, 0xA0,
+                                           0x0122, 0x015C, 0x012F, 0x2013, 0x010A, 0x0109, 0x0120, 0x0100, 0x017F, 0x1F622, 0x1F65C};
+            encode_cp(cps[r.below(sizeof(cps) / sizeof(cps[0]))], width, s);
         } else if (k == 18) {
             // ill-formed on purpose (strict-text oracle is skipped for such trees)
             s.push_back(width == 1 ? 0xFF : width == 2 ? 0xDC00 : 0x110000);
